@@ -85,7 +85,7 @@ func specs() []*spec {
 			ID: "C09", Harness: "monsim", Level: "exploration",
 			Parts: []part{{Harness: "monsim", Share: 0.7, Batch: 100}, {Harness: "clustersim", Share: 0.3, Batch: 40}},
 			Batch: 100, QuickSecs: 30, ThoroughSecs: 600, PlanTimeoutS: 20,
-			RequiredProbes: []string{"reads", "alerts", "alert_once_episodes", "expiry_episodes_seen", "window_wrapped", "peerset_change", "remove_peer", "partition", "expired_on_arrival", "cadence_checked", "retries_checked", "publish_errors", "ipfs_down"},
+			RequiredProbes: []string{"reads", "alerts", "alert_once_episodes", "expiry_episodes_seen", "window_wrapped", "peerset_change", "remove_peer", "partition", "expired_on_arrival", "cadence_checked", "retries_checked", "publish_errors", "ipfs_down", "slow_daemon_reads"},
 			Rule:           "plan = scenario (bare Store+Checker.Watch | pubsubmon Monitors over gossipsub on mocknet, 1-3 hosts) + 5-150 steps (LogMetric arrivals with validity flag and TTL 0.1-60 s incl. already-expired, trains longer than the 25-slot window, PublishMetric over gossipsub, peerset changes, RemovePeer, partitions/heals, reads), with delays chosen so that reads and checker ticks land before/at/after expiry instants; knobs: check interval 0.2-15 s, peerset known or nil, 1-6 peers, 1-3 metric names. Non-trivial = >=1 arrival and >=1 fault/irregular event fired; distinct = distinct canonical trace digest.",
 			Real:           []string{"monitor/metrics Store, Window, Checker (Watch, CheckPeers, CheckAll, alert)", "monitor/pubsubmon Monitor (LogMetric, PublishMetric, LatestMetrics, Alerts, logFromPubsub)", "api.Metric (Expired/Discard)", "go-libp2p-pubsub gossipsub with signing, libp2p basic host on mocknet"},
 			Model:          []string{"reference table (name,peer) -> arrivals; peerset function driven by the plan", "publish-cadence part (clustersim): real Cluster.pushInformerMetrics/pushPingMetrics with the real disk and numpin informers over a model IPFS, recording monitor that fails k consecutive publishes"},
@@ -116,7 +116,7 @@ func specs() []*spec {
 		{
 			ID: "C10", Harness: "clustersim", Level: "exploration",
 			Batch: 10, QuickSecs: 40, ThoroughSecs: 600, PlanTimeoutS: 30,
-			RequiredProbes: []string{"rehomed", "untouched_meets_min", "alert_delivered", "peer_removed", "expired_unpinned", "update_pin_in_pinset"},
+			RequiredProbes: []string{"rehomed", "untouched_meets_min", "alert_delivered", "peer_removed", "expired_unpinned", "update_pin_in_pinset", "untrusted_follower_in_peerset"},
 			Rule:           "plan = 1-8 real Cluster peers sharing one model consensus, pinset of 1-12 entries (any allocations, factor pairs, options, entries created by pin-update), per-survivor metric state, re-pinning on/off, follower on/off; one member fails (ping alert delivered to every survivor in a plan-chosen order) or is removed with PeerRemove; expiry scenario: entries with expiry before/after now, StateSync on every peer after the clock moved. Pinset before/after and the per-peer consensus call log are compared. Non-trivial = >=1 failure/removal/sync and >=1 entry affected; distinct = distinct canonical trace digest.",
 			Real:           []string{"ipfscluster.Cluster (alertsHandler, vacatePeer, repinFromPeer, pin, allocate, PeerRemove, StateSync, distances/isClosest, getTrustedPeers)", "real allocator", "state/dsstate"},
 			Model:          []string{"consensus (records which peer issued each LogPin/LogUnpin)", "monitors (alert channels driven by the plan; same metric view on every peer)", "tracker, IPFS, informer"},
@@ -125,7 +125,7 @@ func specs() []*spec {
 		{
 			ID: "C16", Harness: "ipfshttpsim", Level: "exploration",
 			Batch: 200, QuickSecs: 25, ThoroughSecs: 420, PlanTimeoutS: 10,
-			RequiredProbes: []string{"already_pinned_as_asked", "pin_update_used", "stalled_pin", "stalled_before_headers", "unpin_absent", "lscid_ok", "pin/add:transport", "pin/add:err_json", "pin/ls:transport", "pin/rm:err_json"},
+			RequiredProbes: []string{"already_pinned_as_asked", "pin_update_used", "stalled_pin", "stalled_before_headers", "unpin_absent", "lscid_ok", "lscid_non_json_failure", "pin/add:transport", "pin/add:err_json", "pin/ls:transport", "pin/rm:err_json"},
 			Rule:           "plan = connector timeouts (PinTimeout 1-120 s, UnpinTimeout, IPFSRequestTimeout) + one call drawn systematically from the product {pin recursive|direct|depth|update, unpin, pin-ls} x prior daemon state x behaviour of every HTTP request of the conversation (pin/ls -> [swarm/connect] -> [pin/ls of source -> pin/update] | pin/add with progress): ok, IPFS JSON error, non-JSON error, transport error, no answer, garbage body, a 200 status followed by a dropped or stalled body (with or without the operation having taken effect), and for the progress stream n progress objects at 0-20 s gaps ending in final object | stall | connection drop | clean end with X-Stream-Error trailer; followed by 0-5 random calls over 3 CIDs. A contiguous seed range as long as the product (about 66k) covers the first-call product completely. Non-trivial = >=1 call and >=1 non-ok daemon behaviour fired; distinct = distinct canonical trace digest.",
 			Real:           []string{"ipfsconn/ipfshttp.Connector (Pin, pinProgress + watchdog, pinUpdate, Unpin, PinLsCid, postCtx/checkResponse error mapping)", "net/http client machinery above RoundTrip"},
 			Model:          []string{"scripted in-memory IPFS HTTP daemon installed as http.DefaultTransport (pin table with modes, go-ipfs error strings, go-ipfs-cmds X-Stream-Error trailer); the effect of pin/add lands with the final stream object unless the request was cancelled"},
@@ -135,7 +135,7 @@ func specs() []*spec {
 			ID: "C01", Harness: "raftsim", Level: "exploration",
 			Batch: 1, QuickSecs: 60, ThoroughSecs: 900, PlanTimeoutS: 90, // one process per plan on the heavy stack: a plan runs exactly as its replay would
 			DetSamples: 10, DetThreshold: 0.9,
-			RequiredProbes: []string{"observations", "acknowledged_ops", "replica_restored_from_snapshot", "leader_killed", "killed_with_call_in_flight", "leader_isolated", "offline_state_read", "tracker_handoffs_checked", "kill", "restart", "stop", "partition"},
+			RequiredProbes: []string{"observations", "acknowledged_ops", "replica_restored_from_snapshot", "leader_killed", "killed_with_call_in_flight", "leader_isolated", "offline_state_read", "tracker_handoffs_checked", "stopped_while_clients_write", "kill", "restart", "stop", "partition"},
 			Rule:           "plan = 1-4 real Raft peers (heartbeat 50 ms-1 s, commit timeout, SnapshotThreshold 2-64, SnapshotInterval 0.3-30 s, TrailingLogs 0-32, CommitRetries 0-2, WaitForLeaderTimeout, link latency) + 8-90 steps: overlapping LogPin/LogUnpin at any member over 2-5 CIDs with pins drawn from the whole well-formed space (type, mode, factors, allocations, origins, metadata incl. empty key/value, expiry whole/sub-second, names, update and reference CIDs of both versions), partitions (incl. leader isolated), heals, connection resets, latency changes, stalls, kill (copy of the tmpfs data folder at that instant) + restart on the copy, graceful stop (+OfflineState) and start; then heal, 60 s liveness budget and a fresh write. Non-trivial = >=1 operation and >=1 fault fired; distinct = distinct canonical trace digest.",
 			Real:           []string{"consensus/raft (Consensus, raftWrapper, LogOp.ApplyTo, commit/redirectToLeader, OfflineState, snapshot on shutdown)", "state/dsstate + api pin codecs (protobuf stored form, msgpack log form)", "go-libp2p-raft (FSM, codec, transport)", "hashicorp/raft, raft-boltdb + BoltDB, file snapshot store on tmpfs", "go-libp2p-gorpc, libp2p basic host on mocknet"},
 			Model:          []string{"PinTracker RPC service (recording)", "recording datastore under dsstate (observes every applied write and snapshot restore in order)", "Consensus RPC service shim delegating to the real Consensus (leader redirect)"},
@@ -145,7 +145,7 @@ func specs() []*spec {
 			ID: "C02", Harness: "crdtsim", Level: "exploration",
 			Batch: 1, QuickSecs: 45, ThoroughSecs: 900, PlanTimeoutS: 60,
 			DetSamples: 10, DetThreshold: 0.9,
-			RequiredProbes: []string{"observations", "queue_full", "bursts", "local_order_checked", "convergence_checked", "tracker_handoffs_checked", "datastore_write_failed", "partition", "untrusted_publisher_checked"},
+			RequiredProbes: []string{"observations", "queue_full", "bursts", "local_order_checked", "convergence_checked", "age_limit_checked", "tracker_handoffs_checked", "datastore_write_failed", "partition", "untrusted_publisher_checked"},
 			Rule:           "plan = 1-4 real CRDT replicas with ipfscluster.newPubSub routers (batching disabled | size-triggered 1-8 | age-triggered 50 ms-5 s, queue 1-64, rebroadcast 1-30 s, trust-all | explicit lists | one untrusted replica, single-writer or contended CIDs) + 8-100 steps: LogPin/LogUnpin (every second one with a request context that ends as soon as the call returned), bursts of 2-10 operations in one instant mixing pin and unpin of the same CID (same batch window, queue overflow), partitions, heals, resets, latency skews, datastore write failures placed in the middle of a batch (skip k writes, fail n), Trust/Distrust; then everything is healed and left quiet for 2 x rebroadcast + 30 s. Non-trivial = >=1 operation and >=1 fault fired; distinct = distinct canonical trace digest.",
 			Real:           []string{"consensus/crdt (Consensus: LogPin/LogUnpin, batchWorker, hooks, topic validator, Trust/Distrust)", "state/dsstate (plain and batching)", "go-ds-crdt", "ipfs-lite + bitswap", "go-libp2p-pubsub gossipsub (signed, strict verification)", "go-libp2p-kad-dht dual DHT", "gorpc, libp2p basic host on mocknet"},
 			Model:          []string{"PinTracker and PeerMonitor RPC services (recording)", "fault-injecting in-memory datastore"},
@@ -154,7 +154,7 @@ func specs() []*spec {
 		{
 			ID: "C13", Harness: "addersim", Level: "exploration",
 			Batch: 20, QuickSecs: 40, ThoroughSecs: 900, PlanTimeoutS: 60,
-			RequiredProbes: []string{"adds_succeeded", "adds_failed", "content_read_back", "single_pin_checked", "sharded_pins_checked", "importer_reference_checked", "indirect_shard_dag", "blockput_ipfs_error", "destination_partitioned", "cluster_pin_failed", "block_allocate_failed"},
+			RequiredProbes: []string{"adds_succeeded", "adds_failed", "content_read_back", "single_pin_checked", "sharded_pins_checked", "importer_reference_checked", "tree_reference_checked", "indirect_shard_dag", "blockput_ipfs_error", "destination_partitioned", "cluster_pin_failed", "block_allocate_failed"},
 			Rule:           "plan = one add of a generated file tree (empty files, sizes at chunk-1/chunk/chunk+1/multiples, nested and wide directories, hidden entries, occasionally > 5984 blocks in one shard) with generated import parameters (size-N and rabin chunkers, balanced|trickle, raw leaves, CID version, sha2-256|sha2-512|blake2b-256, wrap, hidden, local, factor pair, sharding with shard sizes from 3 blocks to everything) on 1-4 destination peers, with faults: BlockPut fails at block k on destination d as an IPFS error, or the link to d is cut at block k (RPC error), the same block fails everywhere, the k-th BlockAllocate or Cluster.Pin fails. In fault-free plans every block must also sit on every peer of the allocation its pin (or its shard) names. Non-trivial = the add ran and >=1 fault fired; distinct = distinct canonical trace digest.",
 			Real:           []string{"adder (Adder.FromFiles, format selection, wrap, Finalize)", "adder/ipfsadd (importer pipeline over MFS)", "adder/single and adder/sharding DAG services (ingestBlock, flushCurrentShard, shard.Flush, makeDAG)", "adder.BlockAdder multi-destination put via gorpc MultiCall over libp2p basic hosts on mocknet", "go-unixfs importer / reader, go-merkledag, go-ipld-cbor (reference and read-back)"},
 			Model:          []string{"Cluster.BlockAllocate / Cluster.Pin RPC service (recording, can fail)", "IPFSConnector.BlockPut RPC service per destination (per-destination block stores, per-(block,destination) fault)"},
@@ -185,7 +185,7 @@ func specs() []*spec {
 			ID: "C18", Harness: "racesim", Level: "exploration", Race: true, CrashIsViolation: true,
 			Batch: 1, QuickSecs: 60, ThoroughSecs: 900, PlanTimeoutS: 120,
 			DetSamples: 8, DetThreshold: 0.9,
-			RequiredProbes: []string{"all_callers_returned", "shutdown_while_in_use", "status_lists_checked", "metric_lists_checked", "alerts_read", "alert_lists_checked", "alerts_injected", "pinsets_checked"},
+			RequiredProbes: []string{"all_callers_returned", "shutdown_while_in_use", "status_lists_checked", "daemon_failures_scripted", "metric_lists_checked", "alerts_read", "alert_lists_checked", "alerts_injected", "pinsets_checked"},
 			Rule:           "plan = one of five worlds (pin tracker + operation table over a model daemon; metrics store + checker + pubsub monitor; a whole Cluster with model consensus/monitor/tracker and the real disk and numpin informers; the two informers alone; the CRDT consensus component with batching) + 2-5 caller goroutines each running a plan-given sequence of 8-70 public calls (track/untrack/status/statusall/recover/recoverall; log/publish/latest/all/check/alerts/remove; inject alerts (bursts above the 1000-entry reset)/Alerts()/pin/unpin/status/peers/id/sync; GetMetric; LogPin/LogUnpin/list/trust/distrust) with pauses of 0-400 ms so that most calls land in the same instants, and in 60% of the plans a Shutdown issued by one caller while the others go on. Lock acquisitions are seeded scheduling points with a per-plan probability of 0-60 % (runtime overlay, knob lock_yield). Built with the race detector (checkptr off). Violation = race report, panic on a goroutine of the code under test, Shutdown or callers stuck for minutes of simulated time, or a structurally torn result (empty or duplicated entries in status, metric, alert or pinset lists). Non-trivial = >=1 call; distinct = distinct canonical trace digest.",
 			Real:           []string{"pintracker/stateless + optracker", "monitor/metrics Store, Window, Checker; monitor/pubsubmon over gossipsub", "ipfscluster.Cluster facade (Alerts, alertsHandler, Pin/Unpin, Status*, Peers, ID, StateSync, RecoverAllLocal, Shutdown, publish loops)", "informer/disk, informer/numpin", "consensus/crdt (batching queue, Trust/Distrust, Shutdown), go-ds-crdt", "Go race detector (happens-before, independent of the interleaving that ran)"},
 			Model:          []string{"IPFS daemon and connector, consensus/monitor/tracker behind the Cluster facade (models, internally locked)"},
